@@ -455,6 +455,10 @@ class LocalConcurrences:
                                   0, len(self.series2) + 1)
         else:
             wp = self._wp
+            # Undo the negation of the cells that were used by earlier matches
+            data = wp.data
+            used = (data < 0) & np.isfinite(data)
+            data[used] = -data[used]
             if self.window is None:
                 wp.mask = False
             else:
